@@ -1,7 +1,6 @@
 """C09 — TLS truncation is never reported as a clean end-of-stream."""
 from __future__ import annotations
 
-import ast
 import errno
 import itertools
 import math
@@ -64,162 +63,9 @@ ASSUMPTIONS = [
 
 REPO = runner.REPO
 
-# ------------------------------------------------------------------ params(): fail-closed ast translator
-
-_CLASS = {
-    "SSLWantReadError": "CWantRead", "SSLWantWriteError": "CWantWrite", "SSLZeroReturnError": "CZeroReturn",
-    "SSLEOFError": "CSslEof", "SSLSyscallError": "CSyscall", "SSLCertVerificationError": "CCert",
-    "SSLError": "CSslError", "OSError": "COSError", "ValueError": "CValueError", "BaseException": "CBaseException",
-}
-
-
-def _fail(msg):
-    raise runner.TranslateError(msg)
-
-
-def _func(tree, qualname, path):
-    node = tree
-    for part in qualname.split("."):
-        nxt = None
-        for ch in ast.iter_child_nodes(node):     # the last definition wins (typing overload stubs come first)
-            if isinstance(ch, (ast.FunctionDef, ast.AsyncFunctionDef, ast.ClassDef)) and ch.name == part:
-                nxt = ch
-        if nxt is None:
-            _fail(f"{path}: {qualname} not found")
-        node = nxt
-    return node
-
-
-def _cls(node, where):
-    """ssl exception class named by an expression: _ssl_module.X | ssl.X | X | (X if _ssl_module else ())."""
-    if isinstance(node, ast.IfExp):
-        if not (isinstance(node.orelse, ast.Tuple) and not node.orelse.elts):
-            _fail(f"{where}: conditional except type with a non-empty alternative")
-        return _cls(node.body, where)
-    if isinstance(node, ast.Tuple):
-        out = []
-        for e in node.elts:
-            out.extend(_cls(e, where))
-        return out
-    name = node.attr if isinstance(node, ast.Attribute) else node.id if isinstance(node, ast.Name) else None
-    if name not in _CLASS:
-        _fail(f"{where}: unknown exception class {ast.dump(node)}")
-    return [_CLASS[name]]
-
-
-def _the_try(fn, where, inside=None):
-    body = fn.body
-    if inside is not None:
-        loops = [s for s in body if isinstance(s, inside)]
-        if len(loops) != 1:
-            _fail(f"{where}: expected exactly one {inside.__name__}")
-        body = loops[0].body
-    tries = [s for s in body if isinstance(s, ast.Try)]
-    if len(tries) != 1:
-        _fail(f"{where}: expected exactly one try statement, found {len(tries)}")
-    return tries[0]
-
-
-def _is_return_eof(stmts):
-    return (len(stmts) == 1 and isinstance(stmts[0], ast.Return) and isinstance(stmts[0].value, ast.Constant)
-            and stmts[0].value.value in (b"", 0) and not isinstance(stmts[0].value.value, bool))
-
-
-def _hact(handler, where):
-    b = handler.body
-    if _is_return_eof(b):
-        return "HReturnEof"
-    # if _utils.is_ssl_eof_error(exc): if not self._standard_compatible: return EOF ; raise
-    if (len(b) == 2 and isinstance(b[0], ast.If) and not b[0].orelse and isinstance(b[1], ast.Raise) and b[1].exc is None
-            and isinstance(b[0].test, ast.Call) and isinstance(b[0].test.func, ast.Attribute)
-            and b[0].test.func.attr == "is_ssl_eof_error" and len(b[0].test.args) == 1
-            and isinstance(b[0].test.args[0], ast.Name) and b[0].test.args[0].id == handler.name
-            and len(b[0].body) == 1 and isinstance(b[0].body[0], ast.If) and not b[0].body[0].orelse):
-        inner = b[0].body[0]
-        t = inner.test
-        if (isinstance(t, ast.UnaryOp) and isinstance(t.op, ast.Not) and isinstance(t.operand, ast.Attribute)
-                and t.operand.attr.endswith("standard_compatible") and _is_return_eof(inner.body)):
-            return "HEofGuardRaise"
-    _fail(f"{where}: handler body not recognised: {ast.unparse(handler)!r}")
-
-
-def _handlers_table(fn, where):
-    t = _the_try(fn, where)
-    if t.orelse or t.finalbody:
-        _fail(f"{where}: unexpected else/finally")
-    if not (len(t.body) == 1 and isinstance(t.body[0], ast.Return)):
-        _fail(f"{where}: try body is not a single return")
-    out = []
-    for h in t.handlers:
-        classes = _cls(h.type, where)
-        act = _hact(h, where)
-        out.extend((c, act) for c in classes)
-    return out
-
-
-def _coq_list(items):
-    return "[" + "; ".join(items) + "]"
-
-
-def _coq_table(tbl):
-    return _coq_list(f"({c}, {a})" for c, a in tbl)
-
-
-def _parse(rel):
-    path = os.path.join(REPO, rel)
-    try:
-        return ast.parse(open(path).read())
-    except SyntaxError as exc:
-        _fail(f"{rel}: {exc}")
-
-
-def _eof_patterns(fn):
-    where = "is_ssl_eof_error"
-    matches = [s for s in fn.body if isinstance(s, ast.Match)]
-    if len(matches) != 1:
-        _fail(f"{where}: expected one match statement")
-    rest = [s for s in fn.body if not isinstance(s, ast.Match)]
-    # `if ssl is None: return False` ... `return False`
-    if not (len(rest) == 2 and isinstance(rest[0], ast.If) and isinstance(rest[1], ast.Return)
-            and isinstance(rest[1].value, ast.Constant) and rest[1].value.value is False):
-        _fail(f"{where}: unexpected statements around the match")
-    pats = []
-    for case in matches[0].cases:
-        p = case.pattern
-        if not (isinstance(p, ast.MatchClass) and not p.patterns and not p.kwd_patterns):
-            _fail(f"{where}: unsupported pattern {ast.unparse(p)}")
-        c = _cls(p.cls, where)[0]
-        if not (len(case.body) == 1 and isinstance(case.body[0], ast.Return)
-                and isinstance(case.body[0].value, ast.Constant) and case.body[0].value.value is True):
-            _fail(f"{where}: case body is not `return True`")
-        if case.guard is None:
-            pats.append(f"PIsInstance {c}")
-        else:
-            g = ast.unparse(case.guard).replace('"', "'")
-            if g != "hasattr(exc, 'strerror') and 'UNEXPECTED_EOF_WHILE_READING' in exc.strerror":
-                _fail(f"{where}: unsupported guard {g}")
-            pats.append(f"PIsInstanceStrerror {c}")
-    return pats
-
-
-def _raises_wouldblock(handler, where):
-    b = handler.body
-    if len(b) == 1 and isinstance(b[0], ast.Raise) and isinstance(b[0].exc, ast.Call):
-        f = b[0].exc.func
-        name = f.attr if isinstance(f, ast.Attribute) else getattr(f, "id", None)
-        if name in ("WouldBlockOnRead", "WouldBlockOnWrite"):
-            return name
-    _fail(f"{where}: handler does not raise WouldBlockOnRead/WouldBlockOnWrite")
-
-
-def _clears_ignore_eof(fn):
-    for n in ast.walk(fn):
-        if (isinstance(n, ast.AugAssign) and isinstance(n.op, ast.BitAnd) and isinstance(n.target, ast.Attribute)
-                and n.target.attr == "options" and isinstance(n.value, ast.UnaryOp) and isinstance(n.value.op, ast.Invert)
-                and isinstance(n.value.operand, ast.Attribute) and n.value.operand.attr == "OP_IGNORE_UNEXPECTED_EOF"):
-            return True
-    return False
-
+# ------------------------------------------------------------------ params(): harness/tlsparams.py
+# Every definition of Gen/ParamsC09.v is obtained by a reader of the source (tolerant to harmless refactorings) AND by
+# behavioural probes on the real transports; see harness/tlsparams.py for the rules (agreement / fallback / fail closed).
 
 def _refresh_c08_params():
     """coq/Conc/TlsPump.v (shared with C08) reads Gen/ParamsC08.v: keep it in step with the tree under test."""
@@ -240,101 +86,13 @@ def params():
 
 
 def params_text():
-    tls = _parse(_TLS)
-    sock = _parse(_SOCK)
-    utils = _parse("src/easynetwork/lowlevel/_utils.py")
-    out = ["From EN Require Import Lib.Bytes Conc.TlsBase."]
-    for name, q in (("recv_handlers", "AsyncTLSStreamTransport.recv"), ("recv_into_handlers", "AsyncTLSStreamTransport.recv_into")):
-        out.append(f"Definition {name} : list (exc_class * hact) := {_coq_table(_handlers_table(_func(tls, q, _TLS), q))}.")
-    out.append(f"Definition ssl_eof_patterns : list eofpat := {_coq_list(_eof_patterns(_func(utils, 'is_ssl_eof_error', '_utils.py')))}.")
-    # _retry_ssl_method: order of the except clauses of the try inside `while True`
-    fn = _func(tls, "AsyncTLSStreamTransport._retry_ssl_method", _TLS)
-    t = _the_try(fn, "_retry_ssl_method", inside=ast.While)
-    order = []
-    for h in t.handlers:
-        order.extend(_cls(h.type, "_retry_ssl_method"))
-    if not t.orelse:
-        _fail("_retry_ssl_method: no else branch")
-    out.append(f"Definition retry_handler_order : list exc_class := {_coq_list(order)}.")
-    # __flush_data_to_send
-    fn = _func(tls, "AsyncTLSStreamTransport.__flush_data_to_send", _TLS)
-    t = _the_try(fn, "__flush_data_to_send")
-    ok = (len(t.handlers) == 1 and _cls(t.handlers[0].type, "flush") == ["CZeroReturn"]
-          and len(t.handlers[0].body) == 1 and isinstance(t.handlers[0].body[0], ast.Raise)
-          and "ECONNRESET" in ast.unparse(t.handlers[0].body[0]))
-    if not ok:
-        _fail("__flush_data_to_send: except clause not recognised")
-    out.append("Definition flush_zero_return_is_reset : bool := true.")
-    # aclose
-    fn = _func(tls, "AsyncTLSStreamTransport.aclose", _TLS)
-    tries = [n for n in ast.walk(fn) if isinstance(n, ast.Try)]
-    if len(tries) != 2:
-        _fail("aclose: expected two nested try statements")
-    outer, inner = (tries[0], tries[1]) if any(isinstance(n, ast.Try) for n in ast.walk(tries[0]) if n is not tries[0]) else (tries[1], tries[0])
-    # the last handler swallows (pass); an optional first handler for SSLError re-sends what unwrap() left in the outgoing
-    # BIO (meta/fixes/C09_close_notify_after_failed_unwrap.diff; its exact shape is checked by c08.params_text -> f_close_flush)
-    if not (len(inner.handlers) in (1, 2) and len(inner.handlers[-1].body) == 1 and isinstance(inner.handlers[-1].body[0], ast.Pass)
-            and "unwrap" in ast.unparse(inner.body)):
-        _fail("aclose: inner try not recognised")
-    if len(inner.handlers) == 2 and _cls(inner.handlers[0].type, 'aclose') != ["CSslError"]:
-        _fail("aclose: first handler of the inner try is not SSLError")
-    out.append(f"Definition aclose_unwrap_swallows : list exc_class := {_coq_list(_cls(inner.handlers[-1].type, 'aclose'))}.")
-    if not (len(outer.handlers) == 1 and "aclose_forcefully" in ast.unparse(outer.handlers[0]) and
-            isinstance(outer.handlers[0].body[-1], ast.Raise)):
-        _fail("aclose: outer try not recognised")
-    out.append(f"Definition aclose_forceful_on : list exc_class := {_coq_list(_cls(outer.handlers[0].type, 'aclose'))}.")
-    conds = [n for n in ast.walk(fn) if isinstance(n, ast.If) and "standard_compatible" in ast.unparse(n.test)]
-    if len(conds) != 1:
-        _fail("aclose: standard_compatible condition not found")
-    test = ast.unparse(conds[0].test)
-    if test != "self._standard_compatible and (not self._transport.is_closing())":
-        _fail(f"aclose: unexpected condition {test}")
-    out.append("Definition aclose_unwrap_if_std : bool := true.")
-    # blocking transport
-    fn = _func(sock, "SSLStreamTransport._try_ssl_method", _SOCK)
-    t = _the_try(fn, "_try_ssl_method")
-    rd, wr = [], []
-    for h in t.handlers:
-        (rd if _raises_wouldblock(h, "_try_ssl_method") == "WouldBlockOnRead" else wr).extend(_cls(h.type, "_try_ssl_method"))
-    out.append(f"Definition sync_wouldblock_read : list exc_class := {_coq_list(rd)}.")
-    out.append(f"Definition sync_wouldblock_write : list exc_class := {_coq_list(wr)}.")
-    for name, q in (("sync_recv_handlers", "SSLStreamTransport.recv_noblock"),
-                    ("sync_recv_into_handlers", "SSLStreamTransport.recv_noblock_into")):
-        out.append(f"Definition {name} : list (exc_class * hact) := {_coq_table(_handlers_table(_func(sock, q, _SOCK), q))}.")
-    fn = _func(sock, "SSLStreamTransport.close", _SOCK)
-    t = _the_try(fn, "SSLStreamTransport.close")
-    if not (len(t.handlers) == 1 and len(t.handlers[0].body) == 1 and isinstance(t.handlers[0].body[0], ast.Pass)
-            and t.finalbody and "_close_stream_socket" in ast.unparse(t.finalbody)):
-        _fail("SSLStreamTransport.close: try statement not recognised")
-    out.append(f"Definition sync_close_swallows : list exc_class := {_coq_list(_cls(t.handlers[0].type, 'close'))}.")
-    ifs = [s for s in t.body if isinstance(s, ast.If)]
-    if not (len(t.body) == 1 and len(ifs) == 1 and "unwrap" in ast.unparse(ifs[0].body)):
-        _fail("SSLStreamTransport.close: body not recognised")
-    test = ast.unparse(ifs[0].test)
-    if test != "self.__standard_compatible and self.__socket.fileno() >= 0":
-        _fail(f"SSLStreamTransport.close: unexpected condition {test}")
-    out.append("Definition sync_close_unwrap_if_std : bool := true.")
-    fn = _func(sock, "SSLStreamTransport.__init__", _SOCK)
-    kws = [kw for n in ast.walk(fn) if isinstance(n, ast.Call) and isinstance(n.func, ast.Attribute) and n.func.attr == "wrap_socket"
-           for kw in n.keywords if kw.arg == "suppress_ragged_eofs"]
-    if len(kws) != 1:
-        _fail("SSLStreamTransport.__init__: suppress_ragged_eofs keyword not found")
-    v = kws[0].value
-    if isinstance(v, ast.UnaryOp) and isinstance(v.op, ast.Not) and isinstance(v.operand, ast.Name) and v.operand.id == "standard_compatible":
-        expr = "negb std"
-    elif isinstance(v, ast.Name) and v.id == "standard_compatible":
-        expr = "std"
-    elif isinstance(v, ast.Constant) and isinstance(v.value, bool):
-        expr = "true" if v.value else "false"
-    else:
-        _fail(f"suppress_ragged_eofs = {ast.unparse(v)}: not recognised")
-    out.append(f"Definition suppress_ragged_eofs (std : bool) : bool := {expr}.")
-    flags = []
-    for rel, q in (("src/easynetwork/clients/tcp.py", "TCPNetworkClient.__init__"),
-                   ("src/easynetwork/clients/async_tcp.py", "AsyncTCPNetworkClient.__init__")):
-        flags.append("true" if _clears_ignore_eof(_func(_parse(rel), q, rel)) else "false")
-    out.append(f"Definition client_default_ctx_clears_ignore_eof : list bool := {_coq_list(flags)}.")
-    return "\n".join(out) + "\n"
+    import tlsparams
+    return tlsparams.c09_text()
+
+
+def extra(ctx):
+    import tlsparams
+    return dict(parameters_obtained_by=tlsparams.provenance())
 
 
 # ------------------------------------------------------------------ running the real code
